@@ -40,6 +40,11 @@ class Startup(srv.SrvHarness):
                 out.append(dict(topo=topo, nworkers=2, capacity=2, init_fail=f, calls=[[[0, BIG, False]]], oracles=O,
                                 bound=1 if quick else 2, cap=60000))
             out.append(dict(topo=topo, nworkers=2, capacity=2, calls=[[[0, BIG, False]]], oracles=O, bound=1, cap=60000))
+        # three workers, the last one fails: TWO started siblings have to be stopped
+        for topo, f in (('single', ['A', 2]), ('seq', ['B', 2]), ('ens', ['B', 2])):
+            out.append(dict(topo=topo, nworkers=3, capacity=2, init_fail=f, calls=[[[0, BIG, False]]], oracles=O,
+                            bound=1 if quick else 2, cap=60000))
+        out.append(dict(topo='single', nworkers=3, capacity=2, calls=[[[0, BIG, False]]], oracles=O, bound=1, cap=60000))
         # a transient fault: enter fails twice, then the SAME server object is entered successfully and serves
         for topo, f in (('single', ['A', 1]), ('seq', ['B', 0]), ('ens', ['B', 1])):
             out.append(dict(topo=topo, nworkers=2, capacity=2, init_fail=f, init_fail_rounds=2, rounds=3, calls=[[[0, BIG, False]]],
@@ -191,6 +196,8 @@ class PStartup(PHarness):
                                 oracles=O, bound=0 if quick else 1, cap=60000))
             out.append(dict(ptopo=ptopo, topo=topo, nworkers=2, capacity=2, calls=[[[0, BIG, False]]], oracles=O, bound=0 if quick else 1,
                             cap=60000))
+        out.append(dict(ptopo='P', topo='single', nworkers=3, capacity=2, init_fail=['A', 2], calls=[[[0, BIG, False]]],
+                        oracles=O, bound=0 if quick else 1, cap=60000))
         return out
 
 
